@@ -29,6 +29,8 @@ def collect(ix: Index, f: FuncInfo, stmts, env: typing.Dict[str, typing.Any], re
   out = Effects()
   env = dict(env)
 
+  loop_depth = [0]
+
   def ev(e):
     return ce.ev(f.module, e, f.cls, env)
 
@@ -54,15 +56,53 @@ def collect(ix: Index, f: FuncInfo, stmts, env: typing.Dict[str, typing.Any], re
           out.calls.append((c.func.attr, [arg(a) for a in c.args], c))
           out.trace.append(("call", c.func.attr, out.calls[-1][1], c))
       elif isinstance(st, ast.Assign) and len(st.targets) == 1 and isinstance(st.targets[0], ast.Name):
+        # a call on a recorded receiver whose result is kept (`x = recv.f(...)`) is recorded too; x becomes a token for the result
+        c = st.value
+        if isinstance(c, ast.Call) and isinstance(c.func, ast.Attribute) and unparse(c.func.value) in receivers:
+          out.calls.append((c.func.attr, [arg(a) for a in c.args], c))
+          out.trace.append(("call", c.func.attr, out.calls[-1][1], c))
+          env[st.targets[0].id] = ("result", len(out.calls) - 1)
+          continue
         try:
           env[st.targets[0].id] = ev(st.value)
         except (NotConst, Raised, Exception):
           env.pop(st.targets[0].id, None)
+      elif isinstance(st, ast.For) and not st.orelse:
+        # a loop over a finite, evaluable sequence is unrolled (at most 16 items)
+        try:
+          seq = ev(st.iter)
+        except (NotConst, Raised, Exception):
+          seq = None
+        if not isinstance(seq, (list, tuple, range)) or len(seq) > 16:
+          out.skipped.append("For " + unparse(st.iter)[:60])
+          continue
+        loop_depth[0] += 1
+        for item in seq:
+          tg = st.target
+          if isinstance(tg, ast.Name):
+            env[tg.id] = item
+          elif isinstance(tg, (ast.Tuple, ast.List)) and isinstance(item, (tuple, list)) and len(item) == len(tg.elts) and all(isinstance(t, ast.Name) for t in tg.elts):
+            for t, x in zip(tg.elts, item):
+              env[t.id] = x
+          else:
+            out.skipped.append("For target")
+            break
+          try:
+            run(st.body)
+          except _Continue:
+            continue
+          except _Break:
+            break
+        loop_depth[0] -= 1
       elif isinstance(st, ast.AugAssign) and isinstance(st.target, ast.Name):
         try:
           env[st.target.id] = ev(ast.fix_missing_locations(ast.copy_location(ast.BinOp(left=ast.Name(id=st.target.id, ctx=ast.Load()), op=st.op, right=st.value), st)))
         except (NotConst, Raised, Exception):
           env.pop(st.target.id, None)
+      elif isinstance(st, ast.Continue) and loop_depth[0]:
+        raise _Continue()
+      elif isinstance(st, ast.Break) and loop_depth[0]:
+        raise _Break()
       elif isinstance(st, (ast.Continue, ast.Break, ast.Return)):
         out.stopped = type(st).__name__
         raise _Stop()
@@ -79,4 +119,12 @@ def collect(ix: Index, f: FuncInfo, stmts, env: typing.Dict[str, typing.Any], re
 
 
 class _Stop(Exception):
+  pass
+
+
+class _Continue(Exception):
+  pass
+
+
+class _Break(Exception):
   pass
